@@ -359,20 +359,22 @@ def build_qconn(spec: QSpec, rng) -> QConn:
         o = "s" if d == "c" else "c"
         if idx == spec.new_cid_at:
             new = rb(len(s_scid) if spec.new_cid_len < 0 else spec.new_cid_len) or rb(8)
-            if spec.new_cid_prefix == "extend" and len(s_scid) < 20:
-                new = s_scid + rb(rng.randrange(1, 21 - len(s_scid)))
-            elif spec.new_cid_prefix == "truncate" and len(s_scid) > 1:
-                new = s_scid[:rng.randrange(1, len(s_scid))]
+            # prefix-related CIDs differ in length by >= 4 bytes: with less, the bytes that follow the shorter CID on the wire (protected packet number)
+            # equal the longer CID's tail with probability 2^-8k and NO receiver - not even the issuing endpoint - could tell them apart
+            if spec.new_cid_prefix == "extend" and len(s_scid) <= 16:
+                new = s_scid + rb(rng.randrange(4, 21 - len(s_scid)))
+            elif spec.new_cid_prefix == "truncate" and len(s_scid) >= 5:
+                new = s_scid[:rng.randrange(1, len(s_scid) - 3)]
             emit("s", [mk_short(cur["s"], "s", c_dcid_used_by_server, [("raw",) + qf.new_connection_id(w, 1, 0, new, rb(16))], phase["s"])])
             sent_in_phase["s"] = True
             s_dcid_used_by_client = new
             info["new_server_cid"] = new
         if idx == spec.client_new_cid_at:
             new = rb(len(c_scid) if c_scid else 8)
-            if spec.new_cid_prefix == "extend" and len(c_scid) < 20:
-                new = c_scid + rb(rng.randrange(1, 21 - len(c_scid)))
-            elif spec.new_cid_prefix == "truncate" and len(c_scid) > 1:
-                new = c_scid[:rng.randrange(1, len(c_scid))]
+            if spec.new_cid_prefix == "extend" and len(c_scid) <= 16:
+                new = c_scid + rb(rng.randrange(4, 21 - len(c_scid)))
+            elif spec.new_cid_prefix == "truncate" and len(c_scid) >= 5:
+                new = c_scid[:rng.randrange(1, len(c_scid) - 3)]
             emit("c", [mk_short(cur["c"], "c", s_dcid_used_by_client, [("raw",) + qf.new_connection_id(w, 1, 0, new, rb(16))], phase["c"])])
             sent_in_phase["c"] = True
             c_dcid_used_by_server = new
